@@ -72,6 +72,8 @@ func checkC18(c *Ctx) {
 	c18KindCases(c, gens)
 	c18Names(c, gens)
 	c18SchemaFromType(c, gens)
+	c18SchemaWalkComplete(c)
+	c18FieldKept(c, gens)
 	c18Refs(c)
 	c18PathMirror(c)
 	c18Bind(c)
